@@ -80,13 +80,20 @@ UTypes ==
     C |->
       [ kind |-> "OBJECT", ifaces |-> <<>>, members |-> <<>>,
         fields |-> [ only |-> FD(S, <<>>) ] ],
+    \* no object of the data graph has this type, it implements nothing and is a member of no union; the reflection worlds
+    \* bind it to the Go type that backs B as well (one Go type behind two object types): what a value of that Go type is
+    \* under a field of type Named or Any is decided by the types that implement / are members, not by the first bound type
+    Ab |->
+      [ kind |-> "OBJECT", ifaces |-> <<>>, members |-> <<>>,
+        fields |-> [ name |-> FD(I, <<>>), flag |-> FD(I, <<>>), extra |-> FD(S, <<>>) ] ],
     \* realised by reflection as a Go struct with exported FIELDS (not methods), met both as a value and through a pointer
     P |->
       [ kind |-> "OBJECT", ifaces |-> <<"Named">>, members |-> <<>>,
         \* (stamp: promoted from a struct embedded by pointer, rank: from one embedded by value, code: a method with a
         \* pointer receiver)
         fields |-> [ name |-> FD(S, <<>>), peer |-> FD(Named("Named"), <<>>), say |-> FD(S, <<>>), n |-> FD(I, <<>>),
-                     stamp |-> FD(S, <<>>), rank |-> FD(I, <<>>), code |-> FD(S, <<>>) ] ],
+                     stamp |-> FD(S, <<>>), rank |-> FD(I, <<>>), code |-> FD(S, <<>>),
+                     note |-> FD(S, <<AD("k", NonNull(S))>>) ] ],        \* (a struct field behind a field that declares a required argument)
     Any |->
       [ kind |-> "UNION", ifaces |-> <<>>, members |-> <<"A", "B">>, fields |-> [x \in {} |-> 0] ],
     Solo |->       \* a union that holds only one of the implementors of Named
@@ -115,7 +122,7 @@ UData ==
              kids |-> ListV(<<>>), boom |-> ErrV("boom fails"), many |-> V("errs", 3), half |-> V("errval", "part"), nest |-> V("errsn", 1), say |-> V("echo", 0),
              wrong |-> StrV("n/a"), flags |-> ListV(<<>>), tag |-> V("echo", 0) ],
     b1 |-> [ name |-> StrV("b1"), flag |-> BoolV(TRUE), peer |-> NodeV("a1"), say |-> V("echo", 0) ],
-    p1 |-> [ name |-> StrV("p1"), peer |-> NullV, say |-> StrV("hi"), n |-> IntV(5), stamp |-> StrV("st"), rank |-> IntV(3), code |-> StrV("c9") ] ]
+    p1 |-> [ name |-> StrV("p1"), peer |-> NullV, say |-> StrV("hi"), n |-> IntV(5), stamp |-> StrV("st"), rank |-> IntV(3), code |-> StrV("c9"), note |-> StrV("nt") ] ]
 
 UExec == [ types |-> UTypes, nodeType |-> UNodeType, data |-> UData,
            roots |-> [ query |-> "q", mutation |-> "m" ], nth |-> {},
